@@ -988,6 +988,11 @@ func c18GenScript(r *Rand, cfgs []c18Cfg, hazard string) ([]c18Op, int) {
 	if r.Chance(30) {
 		status = c18PickInt(r, []int{200, 201, 203, 206, 404, 500, 301, 204, 304, 410})
 	}
+	if hazard == "flush-before-header" && (status == 204 || status == 304) {
+		// the Flush commits a 200: the (possibly encoded) body must stay, or the handler's own
+		// Content-Encoding label would be wrong in the identity run already
+		status = 200
+	}
 	if status == 204 || status == 304 {
 		// no body allowed; a Content-Length would be meaningless
 		var o2 []c18Op
